@@ -83,6 +83,7 @@ fn dispatch(w: &[&str]) -> String {
         "display" => dispop::run(&w[1..]),
         "displayat" => dispop::run_at(&w[1..]),
         "aiter" => decop::run_aiter(&w[1..]),
+        "reuse" => decop::run_reuse(&w[1..]),
         "dextra" => dextra::run(&w[1..]),
         "intconv" => intconv::run(&w[1..]),
         "seq" => decop::run_seq(&w[1..]),
